@@ -2,7 +2,7 @@
  * returns the input; for the form codec additionally with ' ' <-> '+'. */
 void harness(void) {
   HAVOC_BUFS;
-  sv_t input; input.n = nondet_size(); MAKE_SV(input);
+  ND_SV(input);
   uint8_t set[32];
   __CPROVER_assume(BIT_AT(set, '%'));
   str_t e = percent_encode(input, set);
